@@ -1,6 +1,7 @@
 """C09 / C10: AllocProfiler transparency and tally exactness."""
 import os
 import random
+import re
 
 from . import build, runner, sanit, evlog
 from . import alloc_oracle as AO
@@ -45,6 +46,16 @@ def judge(prop, shards, out, fn, engine, binname, agg):
             else:
                 out.inconclusive_shard("allocdrv crashed with signal %d (C09's verdict)" % -sh.returncode)
             continue
+        if binname == "allocdrv" and sh.returncode == 101 and not sh.timed_out and prop == "C09":
+            # a panic raised inside the profiler's own code (its source file named in the panic message) while it was asked to
+            # forward a request: the wrapped allocator never saw the call
+            m = re.search(r"panicked at (\S*?/src/alloc\.rs:\d+)[:\d]*:?\s*\n?([^\n]*)", sh.stderr)
+            if m and build.REPO in os.path.abspath(m.group(1).rsplit(":", 1)[0]):
+                n_done = len([r for r in sh.runs if r.complete])
+                culprit = sh.lines[n_done] if n_done < len(sh.lines) else sh.lines[-1]
+                out.violation("C09:profiler_panicked", "AllocProfiler panicked instead of forwarding a request (%s: %s)" % (m.group(1).replace(build.REPO, "<repo>"), m.group(2)[:120]),
+                              {"engine": engine, "bin": binname, "cfg": culprit, "stderr": sh.stderr[-1500:]})
+                continue
         if not sh.conclusive:
             out.inconclusive_shard("engine=%s bin=%s shard: done=%s rc=%s timeout=%s stderr=%s" % (engine, binname, sh.done, sh.returncode, sh.timed_out, sh.stderr[-300:].replace("\n", " | ")))
         for run in sh.runs:
@@ -82,6 +93,7 @@ def end_to_end(prop, tier, seed, out, only_lines=None):
     n = 240 if tier == "quick" else 6000
     lines = [l for l in loopgen.gen_c02(tier, seed + 909) if "caops=" in l][:n]
     lines += [l for l in loopgen.gen_c08_panic("quick", seed + 909)][: (40 if tier == "quick" else 400)]
+    lines += loopgen.gen_late_alloc(tier, seed + 909, first_id=100000)
     if only_lines is not None:
         lines = only_lines
     shards = runner.run_parallel(bins["loopdrv"], lines, timeout=900)
